@@ -113,6 +113,37 @@ pub fn hostile(r: &mut Rng) -> Vec<Vec<u8>> {
     out
 }
 
+
+/// definitions whose bodies are optional only through names (and one that is not optional), and field types using them
+pub fn optional_defs() -> (Env, Vec<T>) {
+    let defs: Env = vec![
+        ("OptNat_".into(), T::opt(T::p("nat"))), ("Null_".into(), T::p("null")), ("Res_".into(), T::p("reserved")),
+        ("Chain_".into(), T::var("OptNat_")), ("Chain2_".into(), T::var("Chain_")), ("Nat_".into(), T::p("nat")),
+        ("List_".into(), T::opt(T::rec(vec![(0, T::p("nat")), (1, T::var("List_"))]))),
+    ];
+    let extras = vec![T::var("OptNat_"), T::var("Null_"), T::var("Res_"), T::var("Chain_"), T::var("Chain2_"), T::var("List_"),
+                      T::opt(T::p("text")), T::var("Nat_"), T::p("nat")];
+    (defs, extras)
+}
+/// add one or two fields to every record of `t`, at ids before, between and after the existing ones
+pub fn insert_fields(r: &mut Rng, t: &T, extras: &[T]) -> T {
+    match t {
+        T::Rec(fs) => {
+            let mut out: Vec<(u32, T)> = fs.iter().map(|(i, t)| (*i, insert_fields(r, t, extras))).collect();
+            let n = r.range(1, 2);
+            for _ in 0..n {
+                let id = match r.below(3) { 0 => r.below(8) as u32, 1 => 50 + r.below(60) as u32, _ => r.next() as u32 };
+                if !out.iter().any(|f| f.0 == id) { out.push((id, r.pick(extras).clone())); }
+            }
+            T::rec(out)
+        }
+        T::Opt(x) => T::opt(insert_fields(r, x, extras)),
+        T::Vec(x) => T::vec(insert_fields(r, x, extras)),
+        T::Variant(fs) => T::variant(fs.iter().map(|(i, t)| (*i, insert_fields(r, t, extras))).collect()),
+        _ => t.clone(),
+    }
+}
+
 pub fn generate(thorough: bool, r: &mut Rng, em: &mut Emit) {
     let scale = if thorough { 15 } else { 1 };
     for b in hostile(r) {
@@ -168,23 +199,6 @@ pub fn generate(thorough: bool, r: &mut Rng, em: &mut Emit) {
             ee3.push(("List_".into(), T::opt(T::rec(vec![(0, T::p("nat")), (1, T::var("List_"))]))));
             let extras: [T; 9] = [T::var("OptNat_"), T::var("Null_"), T::var("Res_"), T::var("Chain_"), T::var("Chain2_"), T::var("List_"),
                                   T::opt(T::p("text")), T::var("Nat_"), T::p("nat")];
-            fn insert_fields(r: &mut Rng, t: &T, extras: &[T]) -> T {
-                match t {
-                    T::Rec(fs) => {
-                        let mut out: Vec<(u32, T)> = fs.iter().map(|(i, t)| (*i, insert_fields(r, t, extras))).collect();
-                        let n = r.range(1, 2);
-                        for _ in 0..n {
-                            let id = match r.below(3) { 0 => r.below(8) as u32, 1 => 50 + r.below(60) as u32, _ => r.next() as u32 };
-                            if !out.iter().any(|f| f.0 == id) { out.push((id, r.pick(extras).clone())); }
-                        }
-                        T::rec(out)
-                    }
-                    T::Opt(x) => T::opt(insert_fields(r, x, extras)),
-                    T::Vec(x) => T::vec(insert_fields(r, x, extras)),
-                    T::Variant(fs) => T::variant(fs.iter().map(|(i, t)| (*i, insert_fields(r, t, extras))).collect()),
-                    _ => t.clone(),
-                }
-            }
             let has_rec = |t: &T| { fn go(t: &T) -> bool { match t { T::Rec(_) => true, T::Opt(x) | T::Vec(x) => go(x), T::Variant(fs) => fs.iter().any(|f| go(&f.1)), _ => false } } go(t) };
             if same.iter().any(|t| has_rec(t)) || ee.iter().any(|d| has_rec(&d.1)) {
                 for _ in 0..3 {
